@@ -203,9 +203,11 @@ def _check_update(ctx, upd, assess_jit, prog, tr0, ch0, ref_old, vals0, args0, v
             if np.shape(l1[p]) != np.shape(want[p]) or not np.array_equal(np.asarray(l1[p]), np.asarray(want[p]).astype(np.asarray(l1[p]).dtype)):
                 ctx.violation("update|constrained-value-not-taken" + sfx, {**d, "path": gfi.pstr(p)})
                 return False
-        elif not _under(p, switched):
+        else:
+            # also below a Cond whose branch switched: the value that was visible before stays visible
             if p not in l0 or not gfi.bit_equal(l0[p], l1[p]):
-                ctx.violation("update|unconstrained-value-changed", {**d, "path": gfi.pstr(p)})
+                ctx.violation("update|unconstrained-value-changed" + ("|below-switched-cond" if _under(p, switched) else ""),
+                              {**d, "path": gfi.pstr(p), "old_visible_value": np.asarray(l0.get(p)).tolist(), "new_visible_value": np.asarray(l1[p]).tolist()})
                 return False
     # weight = visible density ratio
     want_w = ref_new.total - ref_old.total
